@@ -7,7 +7,8 @@ import re
 
 import verif
 
-RULE = ("plus an end-to-end stage (real afpacket source, kernel filter, real receiver, scan method; veth pair in a private "
+RULE = ("plus an engine stage (20 000 distinct replies back to back through the real scan.SetupPacketEngine over an in-memory "
+        "source, one record per frame with that frame's fields); plus an end-to-end stage (real afpacket source, kernel filter, real receiver, scan method; veth pair in a private "
         "namespace) fed histories 'long reply, then frames of other hosts that end after the IPv4/ARP header or inside the "
         "transport header, then a reply'; "
         "sequences of 1-4 raw frames (half of them through a ring of 1-4 REUSED receive buffers, as the zero-copy AF_PACKET "
@@ -358,6 +359,35 @@ def run_e2e_stage(ctx, cases, seen, tag="e2e"):
     return rows
 
 
+def run_engine(ctx, n, seen):
+    """n distinct plain replies back to back through the REAL scan.SetupPacketEngine (receiver(s) + scan method over an in-memory
+    source, GOMAXPROCS >= 4): exactly one record per frame, each with that frame's own fields."""
+    ok, _ = ctx.harness_run("c06", ["-engine", "-out", "engine.jsonl", "-n", n], timeout=900)
+    if not ok:
+        return
+    for e in ctx.read_jsonl(os.path.join(ctx.work, "engine.jsonl")):
+        bad = e["foreign"] or e["dups"]
+        ctx.count("engine/%s/%s" % (e["kind"], "bad" if bad else "one-record-per-frame"), ("engine", e["kind"], e["n"]), nontrivial=True)
+        ctx.cov["evaluations"] += e["n"] - 1
+        if e.get("errtext") == "timeout":
+            ctx.broken.append(("correspondence: engine stage of %s timed out" % e["kind"], ""))
+        if not bad:
+            continue
+        key = ("fields" if e["foreign"] else "multi") + ":engine:" + e["kind"]
+        if key in seen:
+            continue
+        seen[key] = 1
+        what = ("[real scan.SetupPacketEngine + %s scan method, %d distinct plain replies handed out back to back, GOMAXPROCS %d] %d records "
+                "carry fields of no single frame of the burst, %d records repeat an already reported frame, %d frames have no record; %s" % (
+                    e["kind"], e["n"], e["gomaxprocs"], e["foreign"], e["dups"], e["missing"], "; ".join(e.get("sample") or [])))
+        rp = ctx.write_replay(key.replace(":", "-"), {
+            "property": "C06", "what": what,
+            "input": {"engine": True, "kind": e["kind"], "n": e["n"], "first_frames": e.get("frames"),
+                      "note": "frame i of the burst is built by engineFrame(kind, i) in harness/cmd/c06/engine.go"},
+            "observed": {k: v for k, v in e.items() if k != "frames"}, "replay_cmd": "bin/check C06 --replay <this file>"})
+        ctx.findings.append({"key": key, "what": what, "replay": rp})
+
+
 def run_closerace(ctx, seen, tag="closerace"):
     """A reply read from the real afpacket.Source just before Close and processed just after it (the schedule of every scan
     end and port-chunk boundary, made deterministic by the driver) must still be processed from intact bytes."""
@@ -442,6 +472,7 @@ def run(ctx):
         if v:
             report(ctx, r, v[0], v[1], seen)
     # the real packet source and receiver in front of the processors (needs the C03 e2e driver and a network namespace)
+    run_engine(ctx, 20000 if quick else 200000, seen)
     run_e2e_stage(ctx, e2e_cases(), seen)
     run_closerace(ctx, seen)
     for k, n in seen.items():
@@ -483,6 +514,15 @@ def replay(ctx, path):
         print(json.dumps(r, indent=1))
         return 1
     i = r["input"]
+    if i.get("engine"):
+        seen = {}
+        if not ctx.harness_build("c06"):
+            return 1
+        run_engine(ctx, i["n"], seen)
+        for fd in ctx.findings:
+            print("engine replay: " + fd["what"][:600])
+        print("replay: " + ("the property FAILS on this input" if ctx.findings else "the property holds on this input"))
+        return 1 if ctx.findings else 0
     if i.get("closerace"):
         seen = {}
         run_closerace(ctx, seen, "closerace-replay")
